@@ -107,6 +107,7 @@ class Printer:
         self.strings: set[str] = set()        # every string literal (for the int() table)
         self.lit_filter_sites: dict[tuple[int, str], bool] = {}   # (expr pos, msgid) -> literal
         self.nonlit_filter_sites: dict[tuple[int, str], bool] = {}  # literal operand, other operands not literal
+        self.tail_sites: dict[tuple[int, str], bool] = {}         # `'lit' if c else 'lit' || t`: bare literal branches
         self.tag_sites: dict[int, bool] = {}                      # translate tag pos -> literal
         self.static_sites: list[tuple[int, tuple]] = []           # (pos, message) the harness expects extracted
         self.comments: list[tuple[int, str]] = []                 # (pos, stripped translator comment)
@@ -230,6 +231,10 @@ class Printer:
         self.note_filter_site(pos, left, fs)
         if alt is not None:
             self.note_filter_site(pos, alt, afs)
+        if tfs and not tfs[0][0].startswith("other"):
+            for br, brfs in ((left, fs), (alt, afs)):
+                if br is not None and br[0] == "str" and not brfs:
+                    self.tail_sites[(pos, br[1])] = True
         return pos, f"(TTernary {pos} {lt} {cfs} {ct} {calt} {cafs} {ctfs})"
 
     # -- nodes
@@ -1065,10 +1070,15 @@ def oracle(case: Case) -> list[tuple[str, str]]:
                 site_lit, is_tag = True, False
             elif (origin, i) in case.pr.nonlit_filter_sites:
                 site_lit, is_tag = False, False
+            elif (origin, i) in case.pr.tail_sites:
+                # known finding: a tail filter (`|| t`) over bare string-literal branches
+                if (true_line(starts, origin), (fam, c, i, p)) not in ext_set:
+                    fails.append(("tail-filter-literal-branch",
+                                  f"run-time lookup {fam}(id={i!r}) made by a tail filter whose branches are string "
+                                  "literals is not extracted (tail filters are never inspected)"))
+                continue
             else:
                 continue
-            if i == "" and p is None:
-                continue          # gettext("") / pgettext(c, ""): the catalog header, not a message
             want = (true_line(starts, origin), (fam, c, i, p))
             if want not in ext_set:
                 same_ids = [(ln, m) for ln, m in ext_set if m and m[2] == i]
@@ -1179,6 +1189,21 @@ def glue_oracle(case: Case, env: Any) -> list[tuple[str, str]]:
         for ctext in comments:
             if ctext not in ent.auto_comments:
                 fails.append(("catalog-misses-comment", f"{m}: comment {ctext!r} not in {ent.auto_comments}"))
+    # a keywords mapping without the canonical *gettext names (filters / tag only)
+    custom = {"t": None, "translate": None}
+    try:
+        from liquid2.messages import extract_from_template as _eft
+        cat2 = extract_from_templates(case.t, keywords=custom)
+        for lineno, funcname, message, comments in _eft(case.t, keywords=custom):
+            m = msg_tuple(funcname, message)
+            if m is None or not m[2]:
+                continue
+            fam, c, i, p = m
+            if cat2.get(i if p is None else (i, p), context=c) is None:
+                fails.append(("catalog-misses-message:custom-keywords", f"{m} (line {lineno}) is not in the catalog built with keywords={custom}"))
+    except Exception as e:  # noqa: BLE001
+        fails.append((f"extract_from_templates-raises-{type(e).__name__}:custom-keywords",
+                      f"extract_from_templates(t, keywords={custom}) raised {type(e).__name__}: {e}"))
     try:
         via = [tuple(x) for x in extract_liquid(io.BytesIO(case.src.encode("utf-8")), list(DEFAULT_KEYWORDS), ["Translators:"], {})]
         direct = [tuple(x) for x in case.tuples]
@@ -1215,11 +1240,37 @@ def extra_oracle_cases() -> list[tuple[str, dict, list[tuple]]]:
         ("{% raw %}{{ 'r1' | t }}{% endraw %}\n{{ 'r2' | t }}", {}, ["r2"]),
         ("{% for i in (1..3) %}{% if i == 2 %}{% break %}{% endif %}\n{{ 'b1' | t }}{% endfor %}", {}, ["b1"]),
         ("{% cycle 'a', 'b' %}{% increment n %}\n{{ 'y1' | t }}", {}, ["y1"]),
+        # operands passed by keyword through the mangled parameter names
+        ("\n{{ 'mg1' | ngettext: _NGetText__plural: 'Many', _NGetText__count: 2 }}", {}, ["mg1"]),
+        ("{{ 'mg2' | t: _Translate__message_context: 'menu' }}", {}, ["mg2"]),
+        ("{{ 'mg3' | pgettext: _PGetText__message_context: 'menu' }}", {}, ["mg3"]),
+        ("{{ 'mg4' | npgettext: _NPGetText__message_context: 'c', _NPGetText__plural: 'p', _NPGetText__count: 1 }}", {}, ["mg4"]),
     ]
+
+
+def check_comment_order(chk: C.Check, env: Any) -> None:
+    """A translator comment in front of a translate tag belongs to the tag's own
+    message, also when the tag's arguments contain a message (template string)."""
+    from liquid2.messages import extract_from_template
+    src = ("{# Translators: greeting #}\n"
+           "{% translate you: \"${ 'friend' | t }\" %}Hello, {{ you }}!{% endtranslate %}")
+    try:
+        ext = {msg_tuple(fn, m): list(cs) for _, fn, m, cs in extract_from_template(env.from_string(src))}
+    except Exception as e:  # noqa: BLE001
+        chk.finding(f"extract-raises-{type(e).__name__}", f"extract_from_template raised on {src!r}", {"source": src})
+        return
+    tag = ext.get(("gettext", None, "Hello, %(you)s!", None))
+    arg = ext.get(("gettext", None, "friend", None))
+    if tag != ["Translators: greeting"] or arg != []:
+        chk.finding("comment-attached-to-argument-message",
+                    f"{src!r}: the comment immediately precedes the translate tag, but the tag's message carries "
+                    f"{tag} and the message inside its argument carries {arg}",
+                    {"source": src, "extracted": {str(k): v for k, v in ext.items()}})
 
 
 def run_extra(chk: C.Check, env: Any) -> int:
     from liquid2.messages import extract_from_template
+    check_comment_order(chk, env)
     n = 0
     for src, data, expected in extra_oracle_cases():
         n += 1
@@ -1320,6 +1371,9 @@ CORPUS: list[list[tuple]] = [
     [("expr", "output", ("filtered", ("str", "nl5"), [("t", [("pos", ("int", 5))])]))],
     [("expr", "output", ("filtered", ("str", "nl6"), [("pgettext", [("pos", ("bool", True))])]))],
     [("expr", "output", ("filtered", ("str", "nl7"), [("ngettext", [("pos", ("int", 3)), ("pos", ("int", 2))])]))],
+    # known finding: a tail filter over bare string-literal branches is looked up, never extracted
+    [("expr", "output", ("ternary", ("str", "tf1"), [], ("bool", True), ("str", "tf2"), [], [("t", [])]))],
+    [("expr", "output", ("ternary", ("str", "tf3"), [], ("bool", False), ("str", "tf4"), [], [("gettext", [])]))],
     # the same keyword twice (the last one wins on both sides); boolean counts
     [("expr", "output", ("filtered", ("str", "dk1"), [("t", [("kw", "plural", ("str", "dk1a")), ("kw", "plural", ("str", "dk1b")), ("kw", "count", ("int", 2))])]))],
     [("expr", "output", ("filtered", ("str", "dk2"), [("t", [("kw", "plural", ("var", 0)), ("kw", "plural", ("str", "dk2b")), ("kw", "count", ("int", 2)), ("kw", "count", ("int", 0))])]))],
@@ -1555,6 +1609,6 @@ def main(chk: C.Check, build: C.Build) -> None:
         "the catalog returns text without %-conversion specifiers (the interpolation after a lookup cannot raise)",
         "keyword-argument names of filters are plural/count/k<n>: names colliding with Python parameters (e.g. `context`) are outside the syntax",
         "positions_in_source: every token offset is inside the source (checked on every parsed template: extraction never raised)",
-        "gettext('') / pgettext(c, '') (translate tag with neither message text nor plural block) are not covered: '' is the catalog header, not a message",
+        "known finding tail-filter-literal-branch: a tail filter (`|| t`) is applied to the value of the conditional; the model passes it unknown text (tc_lit false)",
         "known findings translate-nonliteral-context / filter-nonliteral-operand: lookups whose context or plural operand is not a string literal are outside the _partial theorem (guard tc_lit); the oracle reports them under those signatures",
     ]
